@@ -64,7 +64,7 @@ def hooke(mu, lam, e):
 
 def run(check):
     tier = check.tier
-    mtypes = ['double'] if tier == 'quick' else list(NUMS)
+    mtypes = list(NUMS)
     check.checker_cmd = 'clang++ -ast-dump=json (patched forward declarations) | phqv lower | phqv symex (REAL) -> z3 -T:120 qfnra-nlsat'
     check.assume('REAL: machine arithmetic treated as exact real arithmetic; the three numeric-type overloads are three bodies proved against the same real formula ("same results to the precision of each type" = same real function; per-type rounding is not machine-checked)')
     check.assume('admissible materials: mu > 0 and lambda >= 0 (equivalently 0 <= nu < 1/2); for the pair (Lame first modulus, Poisson ratio) additionally nu > 0, because (lambda, nu) = (0, 0) does not determine mu')
